@@ -22,6 +22,7 @@ type ChurnCfg struct {
 	Initial      int    `json:"initial"`
 	Backend      int    `json:"backend"` // Backend
 	NetV         bool   `json:"netv"`
+	RealRPC      bool   `json:"real_rpc"` // chord.RemoteNode over twirp/HTTP2 on an in-memory transport (production timeouts)
 	Keys         int    `json:"keys"`
 	Clients      int    `json:"clients"`
 	OpsPerClient int    `json:"ops_per_client"`
@@ -216,6 +217,9 @@ func RunChurnKV(cfg ChurnCfg, scratch string) *ChurnResult {
 	mode := Direct
 	if cfg.NetV {
 		mode = NetV
+	}
+	if cfg.RealRPC {
+		mode = RealRPC
 	}
 	lab := New(Options{Mode: mode, Seed: cfg.Seed, HookDelayMaxMicro: cfg.DelayMicro, RecordEvents: true, RecordStores: true, ScratchDir: scratch})
 	defer lab.Close()
